@@ -38,6 +38,21 @@ func C12(r *core.Run) int {
 	}
 	fat := []specgen.Case{specgen.MapFat(8), specgen.MapFat(4), specgen.MapFat(6)}
 	fat[2].Flags = specgen.Flags{Client: false, Cors: false, DoNotEdit: true}
+	{
+		// schemas carrying several vendor extensions at once (goag's own keys next
+		// to other generators' spellings): maps again, so iteration order again
+		d := specgen.NewDoc("ext")
+		var ps specgen.L
+		for i := 0; i < 10; i++ {
+			n := fmt.Sprintf("T%c", 'A'+i)
+			d.Comp("schemas", n, specgen.M{"type": "string", "x-goag-go-type": "pkg." + n, "x-go-type": "other." + n, "x-go-type-import": specgen.M{"path": "example.com/other"},
+				"x-oapi-codegen-extra-tags": specgen.M{"db": n}, "x-goag-go-time-format": "2006", "x-go-name": "Go" + n, "x-order": i})
+			ps = append(ps, specgen.ParamNode("p"+n, "query", i%2 == 0, specgen.Ref("schemas", n)))
+		}
+		d.Op("/t", "get", specgen.M{"parameters": ps})
+		fat = append(fat, specgen.Case{ID: "ext-keys-fat", Family: "mapfat", Spec: d.Root, Flags: specgen.Flags{Client: true, DoNotEdit: true},
+			CfgRaw: []byte("imports:\n  - value: example.com/verif/pkg\n"), Label: map[string]string{"set": "ext-keys-fat"}})
+	}
 	var corpus []specgen.Case
 	corpus = append(corpus, Sample(specgen.MatrixCases(), nCorpus, r.Seed+3)...)
 	corpus = append(corpus, Sample(specgen.ShapeCases(), nCorpus/4, r.Seed+4)...)
